@@ -8,6 +8,7 @@ class Rep:
     def bump(s,a,b,n=1): s.counts[(a,b)]+=n
     def sample(s,x,limit=3): s.samples.append(x)
     def log(s,m): print("[log]",m)
+    def count(s,*a,**k): s.counts[("count",str(a[:1]))]+=1
 class Ctx:
     def __init__(s): s.rep=Rep(); s.prop=prop; s.tier=tier; s.seed=seed; s.deadline=time.time()+3000; s.driver_ok=True; s.fails=[]; s.dis=[]
     def oracle_failure(s,p,what,replay):
